@@ -154,6 +154,41 @@ def build_req(case):
     return req
 
 
+def resolved_location(cls, resp):
+    """a redirect carries the location resolved for the request only while serving it (and restores the
+    application's value afterwards): read it off the emitted Location header; None for other classes"""
+    from webob import exc
+    if issubclass(cls, exc._HTTPMove):
+        return resp.headers.get("Location") or ""
+    return None
+
+
+def serving_headers(cls, e, resp):
+    """the instance's header list as _make_body saw it while `resp` was produced"""
+    hs = [(k, v) for k, v in e.headers.items()]
+    loc = resolved_location(cls, resp)
+    if loc is not None:
+        hs = [h for h in hs if h[0].lower() != "location"] + [("Location", loc)]
+    return hs
+
+
+class Serving:
+    """put the resolved location back on the instance while reference texts are read from it"""
+
+    def __init__(self, cls, e, resp):
+        self.e, self.loc = e, resolved_location(cls, resp)
+
+    def __enter__(self):
+        if self.loc is not None:
+            self.saved = self.e.location
+            self.e.location = self.loc
+        return self.e
+
+    def __exit__(self, *a):
+        if self.loc is not None:
+            self.e.location = self.saved
+
+
 def run_case(case):
     """-> (cls, exc object after the call, request, response)"""
     cls, e = build_exc(case)
@@ -173,7 +208,7 @@ def observe(case):
 def model_literal(case):
     """Coq input of the `call` correspondence: the state the body is made from, read off the real objects."""
     cls, e, req, resp = run_case(case)
-    headers = [(k, v) for k, v in e.headers.items()]
+    headers = serving_headers(cls, e, resp)
     environ = [(k, v) for k, v in req.environ.items() if isinstance(v, str)]
     acc = accept_model_input(req.environ.get("HTTP_ACCEPT", ""))
     inp = "(mkInp %s %s %s %s)" % (cstr(case.get("detail") or ""), cstr(case.get("comment") or ""),
@@ -524,12 +559,13 @@ def subst_markers(ev, table):
     return out
 
 
-def neutral_of(case, e_real, req_real):
+def neutral_of(case, loc_real, req_real):
     """the same response shape with every caller/request string replaced by an inert unique marker;
     -> (neutral case, {marker: raw text})"""
     from webob import exc
     table = {}
-    n = {"cls": case["cls"], "tmpl": case.get("tmpl"), "method": "ZQMZQ", "accept": "text/html, zqazq/zqazq"}
+    n = {"cls": case["cls"], "tmpl": case.get("tmpl"), "method": "ZQMZQ", "accept": "text/html, zqazq/zqazq",
+         "url": case.get("url")}
     table["ZQMZQ"] = req_real.environ["REQUEST_METHOD"]
     table["text/html, zqazq/zqazq"] = req_real.environ.get("HTTP_ACCEPT", "")
     if case.get("detail"):
@@ -555,11 +591,11 @@ def neutral_of(case, e_real, req_real):
     n["environ"] = env
     if issubclass(getattr(exc, case["cls"]), exc._HTTPMove):
         n["location"] = "http://zqlzq/ZQLZQ"
-        table["http://zqlzq/ZQLZQ"] = e_real.headers.get("Location") or ""
+        table["http://zqlzq/ZQLZQ"] = loc_real or ""
     return n, table
 
 
-def ref_message(cls, case, e, req):
+def ref_message(cls, case, hs, req):
     """the un-escaped body text the JSON form must carry: the class's template filled with explanation, detail,
     comment, and (custom templates) environ / header values"""
     comment = case.get("comment") or ""
@@ -574,7 +610,7 @@ def ref_message(cls, case, e, req):
     if custom:
         for k, v in req.environ.items():
             args[k] = v if isinstance(v, str) else str(v)
-        for k, v in e.headers.items():
+        for k, v in hs:
             args[k.lower()] = v
     return string.Template(t).safe_substitute(args)
 
@@ -588,19 +624,28 @@ def has_ct_header(case):
     return any(k.lower() == "content-type" for k, _ in case.get("headers") or [])
 
 
+def classify_exception(case, ex):
+    if isinstance(ex, ValueError) and "Control characters are not allowed in location" in str(ex):
+        return None
+    if has_ct_header(case) and ((isinstance(ex, TypeError) and "without a charset" in str(ex))
+                                or isinstance(ex, (UnicodeEncodeError, LookupError))):
+        return ("content-type-header:generation-raises",
+                "an extra Content-Type header (no charset / another charset) makes the error response raise %r" % ex)
+    return ("raises:" + type(ex).__name__, "building/sending the error response raised %r" % ex)
+
+
 def oracle_case(case):
-    """The property on one request.  None, or (key, message)."""
-    from webob import exc
+    """The property on one request answered by a fresh instance.  None, or (key, message)."""
     try:
         cls, e, req, resp = run_case(case)
     except Exception as ex:  # noqa
-        if isinstance(ex, ValueError) and "Control characters are not allowed in location" in str(ex):
-            return None
-        if has_ct_header(case) and ((isinstance(ex, TypeError) and "without a charset" in str(ex))
-                                    or isinstance(ex, (UnicodeEncodeError, LookupError))):
-            return ("content-type-header:generation-raises",
-                    "an extra Content-Type header (no charset / another charset) makes the error response raise %r" % ex)
-        return ("raises:" + type(ex).__name__, "building/sending the error response raised %r" % ex)
+        return classify_exception(case, ex)
+    return oracle_resp(case, cls, e, req, resp)
+
+
+def oracle_resp(case, cls, e, req, resp, check_made=True):
+    """The property on one response `resp` to `req`; `e` is the instance the reference texts are taken from
+    (in a history: the fresh replica, and byte equality with its answer is checked by the caller)."""
     body = resp.body
     want_status = "%d %s" % (cls.code, cls.title)
     if resp.status != want_status:
@@ -627,23 +672,24 @@ def oracle_case(case):
                 "Accept %r: Content-Type %r, expected %r" % (case.get("accept"), ctype, want))
     if ctype not in ("text/html", "application/json", "text/plain"):
         return ("format-choice:other-type", "Content-Type %r" % ctype)
-    made = {"text/html": e.html_body, "application/json": e.json_body, "text/plain": e.plain_body}[ctype](req.environ)
+    with Serving(cls, e, resp):
+        made = {"text/html": e.html_body, "application/json": e.json_body, "text/plain": e.plain_body}[ctype](req.environ)
     try:
         text = body.decode(resp.charset or "utf-8")
     except Exception as ex:  # noqa
         text = None
-    if text != made:
+    if text is None or (check_made and text != made):
         key = "content-type-header:body-not-in-declared-charset" if has_ct_header(case) else "body:not-in-declared-charset"
         return (key, "the body bytes %r are not the generated text %r in the declared charset %r (Content-Type %r)"
                 % (body[-40:], made[-30:], resp.charset, resp.headers.get("Content-Type")))
     if ctype == "text/html":
-        return oracle_html(case, cls, e, req, text)
+        return oracle_html(case, cls, resolved_location(cls, resp), req, text)
     if ctype == "application/json":
         try:
             d = json.loads(text)
         except Exception as ex:  # noqa
             return ("json:invalid", "body is not JSON: %r (%r)" % (ex, text[:200]))
-        wantd = {"message": ref_message(cls, case, e, req), "code": want_status, "title": cls.title}
+        wantd = {"message": ref_message(cls, case, serving_headers(cls, e, resp), req), "code": want_status, "title": cls.title}
         if d != wantd:
             return ("json:wrong-content", "JSON body %r, expected %r" % (d, wantd))
         return None
@@ -656,8 +702,8 @@ def oracle_case(case):
     return None
 
 
-def oracle_html(case, cls, e, req, text):
-    ncase, table = neutral_of(case, e, req)
+def oracle_html(case, cls, loc, req, text):
+    ncase, table = neutral_of(case, loc, req)
     try:
         _, _, _, nresp = run_case(ncase)
     except Exception as ex:  # noqa
@@ -703,13 +749,185 @@ def culprit(case):
             cls, e, req, resp = run_case(c2)
             if resp.content_type != "text/html":
                 continue
-            n2, _ = neutral_of(c2, e, req)
+            n2, _ = neutral_of(c2, resolved_location(cls, resp), req)
             _, _, _, nresp = run_case(n2)
             if skeleton(events(resp.body.decode("utf-8"))) == skeleton(events(nresp.body.decode("utf-8"))):
                 return slot_name
         except Exception:  # noqa
             continue
     return "unknown"
+
+
+# =========================================================================== histories on ONE instance
+def step_case(case, st):
+    c = {k: v for k, v in case.items() if k != "history"}
+    for k in ("accept", "fmt", "method", "environ"):
+        c[k] = st.get(k)
+    if st.get("url"):
+        c["url"] = st["url"]
+    return c
+
+
+def answer(e, req, via):
+    if via == "generate_response":
+        return req.get_response(e.generate_response)
+    return req.get_response(e)
+
+
+def peek(e, what):
+    """reading the exception's own body between calls (it is a Response)"""
+    try:
+        if what == "body":
+            e.body
+        elif what == "text" and e.charset:
+            e.text
+    except UnicodeError:
+        pass            # an explicit body that is not text in the instance's charset: the reader's problem
+
+
+def run_history(case):
+    """-> (cls, e, [(step case, request, response)]) with ONE instance answering every step"""
+    cls, e = build_exc(case)
+    out = []
+    for st in case["history"]:
+        sc = step_case(case, st)
+        peek(e, st.get("peek"))
+        req = build_req(sc)
+        out.append((sc, req, answer(e, req, st.get("via"))))
+    return cls, e, out
+
+
+def canon_headers(resp, method):
+    hs = [list(h) for h in resp.headerlist]
+    if method == "HEAD":
+        # generate_response deletes Content-Length from the instance; a later HEAD answer of the same instance then
+        # lacks "Content-Length: 0".  The body is empty either way - not this property's subject.
+        hs = [h for h in hs if h[0].lower() != "content-length"]
+    return hs
+
+
+def oracle_history(case):
+    """Every answer of one long-lived instance must (a) satisfy the property and (b) be the answer a brand-new,
+    identically constructed instance gives to that request.  -> list of (key, message)"""
+    try:
+        cls, e, steps = run_history(case)
+    except Exception as ex:  # noqa
+        r = classify_exception(case, ex)
+        return [(r[0] + ":in-history", r[1])] if r else []
+    bad = []
+    for i, (sc, req, resp) in enumerate(steps):
+        st = case["history"][i]
+        via = st.get("via")
+        # the reference for this answer: a brand-new, identically constructed instance given the same request
+        try:
+            cls2, e2 = build_exc(case)
+            req2 = build_req(sc)
+            fresh = answer(e2, req2, via)
+        except Exception as ex:  # noqa
+            bad.append(("raises:fresh-" + type(ex).__name__, "fresh instance raised %r" % ex))
+            break
+        if not (via == "generate_response" and req.environ["REQUEST_METHOD"] == "HEAD"):
+            res = oracle_resp(sc, cls, e2, req, resp, check_made=False)
+            if res:
+                bad.append((res[0], "answer #%d of one instance (after %s): %s" % (
+                    i, [h.get("fmt") if (h.get("method") or "GET") != "HEAD" else "HEAD" for h in case["history"][:i]], res[1])))
+        m = req.environ["REQUEST_METHOD"]
+        what = None
+        if resp.status != fresh.status:
+            what = "status"
+        elif resp.body != fresh.body:
+            what = "body:" + str(fresh.content_type)
+        elif canon_headers(resp, m) != canon_headers(fresh, m):
+            what = "headers"
+        if what:
+            bad.append(("instance-reuse:%s-differs-from-fresh-instance" % what,
+                        "answer #%d of one instance is (%r, %r, %r) but a new identical instance answers (%r, %r, %r)" % (
+                            i, resp.status, canon_headers(resp, m), resp.body[:300], fresh.status, canon_headers(fresh, m),
+                            fresh.body[:300])))
+        if bad:
+            break
+    return bad
+
+
+URLS = ["/p/q?x=1", "/a/b/", "http://example.org:8080/z?y=2", "/", "https://h.example/p/q/r?x=%3Cb%3E", "/p%22%3E/x"]
+FORMS = [("text/html", "text/html", "GET"), ("application/json", "application/json", "GET"), ("x/y", "text/plain", "GET"),
+         ("text/html", "text/html", "HEAD")]
+
+
+def is_move(name):
+    from webob import exc
+    return issubclass(getattr(exc, name), exc._HTTPMove)
+
+
+def rand_history(rng, names, wf_only=True):
+    base = rand_case(rng, names, wf_only=wf_only)
+    for k in ("accept", "fmt", "method"):
+        base.pop(k, None)
+    env0 = base.pop("environ", None) or {}
+    steps = []
+    for _ in range(rng.randrange(2, 6)):
+        if rng.random() < 0.6:
+            acc, fmt, method = rng.choice(FORMS)
+        else:
+            acc, fmt = rand_accept(rng)
+            method = rng.choice(["GET", "GET", "GET", "HEAD", "POST", "M<x>"])
+        st = {"accept": acc, "fmt": fmt, "method": method}
+        if rng.random() < 0.5:
+            st["url"] = rng.choice(URLS)
+        if env0:
+            st["environ"] = {k: (v if rng.random() < 0.5 else rand_text(rng)) for k, v in env0.items()}
+            if base.get("add_slash") and "QUERY_STRING" in st["environ"]:
+                st["environ"]["QUERY_STRING"] = st["environ"]["QUERY_STRING"].replace("\r", "").replace("\n", "")
+        r = rng.random()
+        if r < 0.15 and base.get("body") is None and not is_move(base["cls"]):
+            # (a redirect resolves its Location in __call__; generate_response alone is not its interface)
+            st["via"] = "generate_response"
+        if rng.random() < 0.2:
+            st["peek"] = rng.choice(["body", "text"])
+        steps.append(st)
+        if rng.random() < 0.15:
+            steps.append(dict(st))           # the same request twice
+    base["history"] = steps
+    return base
+
+
+def history_literal(case):
+    """Coq input of the `history` correspondence; only plain req.get_response(exc) steps.  The model starts from
+    the header list of the instance as constructed; the location resolved for each request (an input of the model)
+    is taken from what a brand-new instance emits for that request."""
+    cls, e0 = build_exc(case)
+    hs = [(k, v) for k, v in e0.headers.items()]
+    rs = []
+    for st in case["history"]:
+        sc = step_case(case, st)
+        req = build_req(sc)
+        _, e1 = build_exc(case)
+        loc = resolved_location(cls, build_req(sc).get_response(e1))
+        environ = [(k, v) for k, v in req.environ.items() if isinstance(v, str)]
+        acc = accept_model_input(req.environ.get("HTTP_ACCEPT", ""))
+        rs.append("(%s, %s, %s, %s)" % (clist(cpair(cstr(k), cstr(v)) for k, v in environ), c_accept(acc),
+                                        cbool(req.environ["REQUEST_METHOD"] == "HEAD"),
+                                        copt(None if loc is None else cstr(loc))))
+    body = case.get("body")
+    return "(%s, %s, %s, %s, %s, %s, %s)" % (
+        cstr(case["cls"]), copt(None if case.get("tmpl") is None else cstr(case["tmpl"])), cstr(case.get("detail") or ""),
+        cstr(case.get("comment") or ""), clist(cpair(cstr(k), cstr(v)) for k, v in hs),
+        copt(None if body is None else cstr(bytes.fromhex(body))), clist(rs))
+
+
+HIST_FN = ("(fun c => match c with (nm, t, d, cm, hs, ex, rs) => match find_class classes nm with "
+           "Some cl => VList (map resp_val (history cfg (with_template cl t) d cm ex hs "
+           "(map (fun r => match r with (env, a, hd, loc) => mkReq env a hd loc end) rs))) | None => VNone end end)")
+HIST_TY = ("(str * option str * str * str * list (str * str) * option str * "
+           "list (list (str * str) * accept_in * bool * option str))")
+
+
+def observe_history(case):
+    try:
+        cls, e, steps = run_history(case)
+        return [[resp.status, resp.content_type, resp.body] for _, _, resp in steps]
+    except Exception as ex:  # noqa
+        return Err(type(ex).__name__)
 
 
 def oracle_status_map():
@@ -844,8 +1062,64 @@ def run(ctx):
             ctx.broken.append("correspondence call: model and implementation disagree on %s -> %r" % (
                 json.dumps(c, ensure_ascii=True), cases[i][1]))
 
+    # ---- correspondence of histories on one instance (model: `history`, the instance loses Content-Length)
+    cases = []
+    for _ in range(ctx.scale(150, 1200)):
+        c = rand_history(rng, names, wf_only=False)
+        for st in c["history"]:
+            st.pop("via", None)
+        out = observe_history(c)
+        if isinstance(out, Err):
+            for res in oracle_history(c):
+                report(ctx, res, c, "corr")
+            continue
+        try:
+            cases.append((history_literal(c), out, c))
+        except Exception:  # noqa
+            continue
+    badidx = ctx.corr("history", IMPORTS, HIST_FN, cases, in_type=HIST_TY, shard=25, shard_bytes=150000)
+    for i in badidx[:8]:
+        c = cases[i][2]
+        res = oracle_history(c)
+        if res:
+            for r_ in res:
+                report(ctx, r_, c, "corr")
+        else:
+            ctx.broken.append("correspondence history: model and implementation disagree on %s -> %r" % (
+                json.dumps(c, ensure_ascii=True), cases[i][1]))
+
     # ---- oracle sweep
     r2 = ctx.sub_rng("oracle")
+    # (0) one instance answering several requests: every class x every ordered pair of forms (html/json/plain/HEAD),
+    #     triples for a few classes, then random histories (generate_response called directly, .body/.text read between)
+    cnt = 0
+    hist_names = names if ctx.thorough else names
+    for nm in hist_names:
+        for tup in itertools.permutations(range(len(FORMS)), 2):
+            c = {"cls": nm, "detail": '<script>alert("x")</script> & ${detail}', "comment": "--><img src=x onerror=alert(1)>",
+                 "headers": [["X_Hdr", "<h>"]], "location": '/l"><i>',
+                 "history": [{"accept": FORMS[j][0], "fmt": FORMS[j][1], "method": FORMS[j][2], "url": URLS[(k * 2) % len(URLS)],
+                              "environ": {"HTTP_X_FOO": "<e%d>" % k, "CONTENT_TYPE": "t/<%d>" % k}} for k, j in enumerate(tup)]}
+            cnt += 1
+            for res in oracle_history(c):
+                report(ctx, res, c, "history")
+    for nm in ["HTTPNotFound", "HTTPFound", "HTTPMethodNotAllowed", "HTTPBadRequest", "WSGIHTTPException"]:
+        for tup in itertools.product(range(len(FORMS)), repeat=3):
+            for via in (None, "generate_response"):
+                if via and is_move(nm):
+                    continue
+                c = {"cls": nm, "detail": "<b>'\"&-->", "comment": "c-->",
+                     "history": [{"accept": FORMS[j][0], "fmt": FORMS[j][1], "method": FORMS[j][2], "via": via if k == 1 else None,
+                                  "peek": "body" if k == 2 else None} for k, j in enumerate(tup)]}
+                cnt += 1
+                for res in oracle_history(c):
+                    report(ctx, res, c, "history")
+    m = ctx.scale(1200, 20000)
+    for _ in range(m):
+        c = rand_history(r2, names)
+        for res in oracle_history(c):
+            report(ctx, res, c, "history")
+    ctx.oracle_count("history", cnt + m, cnt + m)
     # (a) every class x every core character (and the attack fragments) in every slot, all three formats + HEAD
     cnt = nt = 0
     frags = CORE + (ATTACKS if ctx.thorough else ATTACKS[:14])
@@ -974,6 +1248,15 @@ def replay(ctx, path):
     if not isinstance(case, dict) or "cls" not in case:
         print("replay: nothing executable in this file (broken obligation): %s" % data.get("what"))
         return 1
+    if "history" in case:
+        bad = oracle_history(case)
+        if bad:
+            print("VIOLATION property=C18 replay=%s" % path)
+            for key, msg in bad[:3]:
+                print("  (%s) %s" % (key, msg[:1500]))
+            return 1
+        print("replay passes on the current tree")
+        return 0
     res = oracle_case(case)
     if res:
         print("VIOLATION property=C18 replay=%s" % path)
